@@ -219,7 +219,7 @@ def _nested_fixture_cases(tier):
 @contract(
     "strict_after_loading_and_cloning", ["C09", "C18"], kind="bounded", cases=_nested_fixture_cases,
     targets=["rv.readers.reader:read_sunvox_file", "rv.errors:override_raise_controller_value_errors", "rv.controller:Controller.set_initial"],
-    bound="after loading each listed fixture (incl. nested loads), cloning a MetaModule with an embedded module and cloning a project: boundary out-of-range values on a fresh Amplifier / Generator, natively",
+    bound="after loading each listed fixture (incl. nested loads), after two FAILING loads of it (unknown module type, file cut mid-chunk), cloning a MetaModule with an embedded module and cloning a project: boundary out-of-range values on a fresh Amplifier / Generator, natively",
 )
 def strict_after_loading_and_cloning(H, path):
     """The default strict mode is still in force after (nested) loads and clones: out-of-range
@@ -252,6 +252,21 @@ def strict_after_loading_and_cloning(H, path):
 
     read_sunvox_file(path)
     probe("load " + path.rsplit("/", 1)[-1])
+    # loads that fail: a module type the library does not know, and the file cut in the middle
+    import io
+
+    data = open(path, "rb").read()
+    broken = {"cut in the middle of a chunk": data[: len(data) // 2 + 3]}
+    i = data.find(b"STYP")
+    if i >= 0:
+        broken["unknown module type"] = data[: i + 8] + b"Q" + data[i + 9:]
+    for what, blob in broken.items():
+        try:
+            read_sunvox_file(io.BytesIO(blob))
+            failed = False
+        except Exception:  # noqa
+            failed = True
+        probe(f"load of {path.rsplit('/', 1)[-1]} with {what} ({'raised' if failed else 'accepted'})")
     mm = MetaModule()
     mm.project.new_module(Amplifier)
     mm.clone()
